@@ -165,6 +165,11 @@ def main(argv):
         # pointer field, compiled route): kept apart so that it masks nothing else
         rr = progen.b_rawrec("0", vsim.Rng(seed, "c09-rawrec"), 60)
         cands.append({"name": "rawrec.as", "text": progen.render([("rawrec", rr[0], rr[2])]).encode(), "origin": "generated"})
+        # a second dedicated program for a known finding: the marker recurses once per object
+        # unless the link sits in the object's last word; a chain of several 10^5 cells linked
+        # through their FIRST field exhausts the C stack during a collection
+        dc = progen.b_chain("0", vsim.Rng(seed, "c09-deepchain"), 0, length=400000)
+        cands.append({"name": "deepchain.as", "text": progen.render([("chain", dc[0], dc[2])]).encode(), "origin": "generated"})
         cs = worlds.corpus(max_bytes=5000)
         rngc = vsim.Rng(seed, "c09-corpus")
         rngc.shuffle(cs)
@@ -307,7 +312,7 @@ def main(argv):
         by_key = {}
         for i, v in enumerate(verd):
             if v:
-                tag = "rawrec:" if work[cases[i][0]][0]["name"] == "rawrec.as" else ""
+                tag = {"rawrec.as": "rawrec:", "deepchain.as": "deepchain:"}.get(work[cases[i][0]][0]["name"], "")
                 by_key.setdefault("%s%s:%s" % (tag, work[cases[i][0]][1], v), []).append(i)
         for key in sorted(by_key):
             ids = by_key[key]
